@@ -16,7 +16,8 @@ LEVEL = ("Static structural conditions on the adaptation schedule: the estimator
          "the schedule and the 'older than two windows' count are not decided."
          " Added: only switch() removes elements from the estimation-window deques (R2); estimator lanes are judged on the inlined form (R4)."
          " Added (round 4): the transformation is frozen in the final window on every path (R8 = C06-R3 analysis, path-sensitive through phase enums and sub-structs of the strategy)."
-         " Added (round 5): the step-size search re-run at the first transformation change restarts the estimator from what it found (R9 = C07-R5/R6 analysis).")
+         " Added (round 5): the step-size search re-run at the first transformation change restarts the estimator from what it found (R9 = C07-R5/R6 analysis)."
+         " Added (round 6): an update that is due happens (R10 = C08-R2 converse clause); every trajectory starts at index 0, resampled momentum or not (R11 = C02-R7 clause).")
 EXPLANATION = "Control-dependence edge relations and value provenance on the MIR of the adapt strategy and of the two estimator strategies; field-writer inventory."
 TRUSTED = ["rustc nightly MIR", "nutsfacts extractor", "rules/c09.py, rules/rel.py"]
 TECHNIQUE = "static analysis: control-dependence edge relations + value provenance + field-writer inventory on MIR"
